@@ -335,14 +335,19 @@ def sonar_reader(e1: Tuple[int, int, bool, bool, int, int, int, int], n: int, ho
     return fin(log.exceptions == 0 and same_ms(got, _sonar_exp(ents)))
 
 
-def sonar_reader_pair(s1: int, closed1: bool, s2: int, closed2: bool, hotspots: bool, sl: int, so: int) -> bool:
+def sonar_reader_pair(s1: int, closed1: bool, s2: int, closed2: bool, hotspots: bool, sl: int, so: int, mixed: bool = False) -> bool:
     """Two entries (every overlap of rule/file keys, open/closed): a closed or foreign-key entry never
-    disturbs the other one.
+    disturbs the other one - also when ONE file lists the first under `issues` and the second under `hotspots`.
     post: _
     """
+    if mixed:
+        hotspots = True
     ents = [(s1, 2 if closed1 else 0, False, True, sl, so, sl, so + 1), (s2 % 4, (5 if hotspots else 3) if closed2 else 1, hotspots, False, 7, 1, 7, 9)]
     entries = [_sonar_entry(*e, idx=i) for i, e in enumerate(ents)]
-    data = {"hotspots": entries} if hotspots else {"issues": entries, "hotspots": []}
+    if mixed:
+        data = {"issues": entries[:1], "hotspots": entries[1:]}
+    else:
+        data = {"hotspots": entries} if hotspots else {"issues": entries, "hotspots": []}
     got, log = _run_sonar(data)
     return fin(log.exceptions == 0 and same_ms(got, _sonar_exp(ents)))
 
@@ -622,7 +627,7 @@ SPEC = {
         "a Sonar file carries either issues or hotspots, as the Sonar API produces them",
     ],
     "stubs": ["json.load", "open", "logger (empty bodies; logger.exception calls counted and asserted zero)", "per-file loaders in process_loops"],
-    "outside": ["real JSON decoding", "results with several locations", "Sonar files mixing non-empty issues and hotspots", "SARIF files of more than 2 runs"],
+    "outside": ["real JSON decoding", "results with several locations", "SARIF files of more than 2 runs"],
     "xh": [
         Xh("merge_or", 150, 1200),
         Xh("merge_ior", 150, 1500),
